@@ -159,6 +159,9 @@ func runLemma(P *Program, fn *ssa.Function, opts VerifyOpts, doReplay bool) *Lem
 	r := P.VerifyFunction(fn, cfg, opts)
 	lj := &LemmaJSON{Lemma: fn.Name(), Package: fn.Pkg.Pkg.Path(), Unsupported: r.Unsupported, Kept: r.Kept, Rounds: r.Rounds, WallMs: r.WallMs}
 	lj.Bounded = r.ex.bounded
+	if cfg.boundedNote != "" {
+		lj.Bounded = append([]string{"bounded stand-in: " + cfg.boundedNote}, lj.Bounded...)
+	}
 	seenRoot := map[string]bool{}
 	for _, o := range r.Obls {
 		if cfg.boundedNote != "" && o.Bounded == "" {
@@ -484,7 +487,7 @@ func checkProperty(P *Program, verifDir, prop, tier string, opts VerifyOpts) int
 	}
 	for _, lj := range overBudget {
 		name := lj.Package + "." + lj.Lemma + "#budget:symbolic execution or solving exceeded the time / memory budget"
-		name = strings.Replace(name, "github.com/free5gc/ike/", "", 1)
+		name = strings.Replace(strings.Replace(name, "github.com/free5gc/ike/", "", 1), "github.com/free5gc/ike.", "ike.", 1)
 		a := &agg{name: name, status: "failing", solver: map[string]int{}, inst: 1, class: "budget", raw: lj.Error}
 		a.replay = &ReplayFile{Obligation: name, Status: "no-failing-input-found", Note: "the lemma function could not be decided within the budget (it is on the unchanged tree): " + lj.Error}
 		aggs[name] = a
@@ -513,6 +516,7 @@ func checkProperty(P *Program, verifDir, prop, tier string, opts VerifyOpts) int
 	knownHits := 0
 	nObl, nDis, nBounded := 0, 0, 0
 	var samples []interface{}
+	var boundedSamples []interface{}
 	var lines []string
 	for _, bn := range order {
 		a := aggs[bn]
@@ -521,6 +525,9 @@ func checkProperty(P *Program, verifDir, prop, tier string, opts VerifyOpts) int
 			if a.status != "discharged" {
 				// a failing bounded stand-in is still a violation
 			} else {
+				if len(boundedSamples) < 4 && (a.class == "assert" || a.class == "post" || a.class == "step") {
+					boundedSamples = append(boundedSamples, map[string]interface{}{"obligation": bn, "class": a.class, "instances": a.inst, "result": "unsat (discharged) - bounded stand-in: " + a.bounded, "solver_ms": a.ms})
+				}
 				continue
 			}
 		}
@@ -528,7 +535,7 @@ func checkProperty(P *Program, verifDir, prop, tier string, opts VerifyOpts) int
 		if a.status == "discharged" {
 			nObl++
 			nDis++
-			if len(samples) < 6 && a.class != "nil" {
+			if len(samples) < 8 && (a.class == "assert" || a.class == "post" || a.class == "step" || a.class == "frame" || len(samples) < 2 && a.class != "nil") {
 				samples = append(samples, map[string]interface{}{"obligation": bn, "class": a.class, "instances": a.inst, "result": "unsat (discharged)", "solver_ms": a.ms})
 			}
 			continue
@@ -619,6 +626,7 @@ func checkProperty(P *Program, verifDir, prop, tier string, opts VerifyOpts) int
 	for _, l := range lemmas {
 		lemNames = append(lemNames, l.Name())
 	}
+	samples = append(samples, boundedSamples...)
 	cov := map[string]interface{}{
 		"obligations":               nObl,
 		"discharged":                nDis,
